@@ -170,13 +170,12 @@ Proof.
   apply IH. intros y Hy. apply H. right. exact Hy.
 Qed.
 
-Lemma create_free_cons host s chs o s' out :
+Lemma create_free_body_cons host s chs o s' out :
   Inv s -> Cons s -> Forall (fun c => c_lease c = node_free) chs -> Forall (fun c => c_lkey c = 0) chs ->
   o_over o = false ->
-  create_free true host s chs o = (s', EOk, out) -> Cons s'.
+  create_free_body true host s chs o = (s', EOk, out) -> Cons s'.
 Proof.
-  intros I C Hall Hzero Hover. unfold create_free. cbv zeta. rewrite Hover.
-  destruct (negb (names_required chs)); [discriminate|].
+  intros I C Hall Hzero Hover. unfold create_free_body. cbv zeta. rewrite Hover.
   destruct (negb (is_ok EOk)) eqn:E0; [discriminate|]. clear E0.
   assert (Hec : forall c, c ∈ chs -> negb (c_lkey c =? 0) && needs_link c = false).
   { intros c Hc. rewrite Forall_forall in Hzero. rewrite (Hzero c Hc). reflexivity. }
@@ -206,6 +205,39 @@ Proof.
   - intros k c Hk Hfree. cbn [upd_tab s_tab] in Hk.
     destruct (tab_insert_lookup _ _ _ _ Hk) as [H0|[Hin _]]; [|apply (Hcr c Hin)].
     change (s_tab s2) with (s_tab s) in H0. rewrite <- (Inv_row_lease s k c I H0). exact Hfree.
+Qed.
+
+(* entries without a key never match a row: the update-by-key step does nothing *)
+Lemma update_existing_zero s chs retr :
+  Inv s -> Forall (fun c => c_lease c = node_free) chs -> Forall (fun c => c_lkey c = 0) chs ->
+  update_existing s chs retr = (s, chs).
+Proof.
+  intros I Hall Hzero. unfold update_existing.
+  set (keys := chan_key <$> chs). destruct (filter (fun k => negb (k =? 0)) keys) as [|e0 ex] eqn:Eex; [reflexivity|].
+  destruct (forallb _ (e0 :: ex)) eqn:Ef; [|reflexivity]. exfalso.
+  rewrite forallb_forall in Ef. assert (Hin : e0 ∈ e0 :: ex) by left.
+  specialize (Ef e0 (proj1 (elem_of_list_In _ _) Hin)). apply bool_decide_eq_true in Ef as [r Hr].
+  rewrite <- Eex in Hin. apply elem_of_list_filter in Hin as [_ Hin].
+  unfold keys in Hin. apply elem_of_list_fmap in Hin as (c & -> & Hc).
+  rewrite Forall_forall in Hall, Hzero. pose proof (Hall c Hc) as Hl. pose proof (Hzero c Hc) as Hz.
+  destruct (inv_tab _ I _ r Hr) as (Hkey & Hlr & Hpos & Hle).
+  unfold chan_key in Hkey. rewrite Hl, Hz in Hkey.
+  pose proof (inv_ctr _ I (c_lease r)).
+  assert (B1 : c_lease r <= node_free) by (destruct Hlr as [->|Hn]; [lia|]; destruct (inv_nodes _ I _ Hn); lia).
+  assert (B2 : c_lkey r <= max_local) by lia.
+  assert (B3 : node_free <= node_free) by lia.
+  assert (B4 : 0 <= max_local) by lia.
+  destruct (new_key_inj _ _ _ _ B3 B4 B1 B2 Hkey) as [_ Hk]. lia.
+Qed.
+
+Lemma create_free_cons host s chs o s' out :
+  Inv s -> Cons s -> Forall (fun c => c_lease c = node_free) chs -> Forall (fun c => c_lkey c = 0) chs ->
+  o_over o = false ->
+  create_free true host s chs o = (s', EOk, out) -> Cons s'.
+Proof.
+  intros I C Hall Hzero Hover. unfold create_free.
+  destruct (negb (names_required chs)); [discriminate|].
+  rewrite update_existing_zero by assumption. apply create_free_body_cons; assumption.
 Qed.
 
 (* ---- create as a whole *)
